@@ -281,7 +281,9 @@ def kf_assign_after_def(w: Dict[str, Any]) -> bool:
     object").  Matches only when EVERY difference is of that shape, or lies inside the namespace of a class that survived
     because of it."""
     p = w["program"]
-    diffs = w["diff"]
+    # differences that are exactly the other open finding (extra 'x.setter' member) may accompany this one
+    diffs = [d for d in w["diff"] if not (d.get("expected") is None and d.get("got") and d["name"].endswith(".setter")
+                                          and d["got"].get("node") and p["kind"][d["got"]["node"] - 1] == "setter")]
     parent = p["parent"]
     survivors = set()
     rest = []
